@@ -328,7 +328,22 @@ func (s *Service) Stop(ctx context.Context, pipelineID string, force bool) error
 		rp.recoveryStopOnce.Do(func() { close(rp.recoveryStop) })
 	}
 
-	return s.stopRunnablePipeline(ctx, rp, force)
+	err := s.stopRunnablePipeline(ctx, rp, force)
+
+	// The run resolved above may have been replaced while this call was under
+	// way: error recovery swaps in the restarted run at any moment, and its own
+	// look at recoveryStop/forceStopped of the old run can have happened just
+	// before this call set them. A stop must not be spent on a run that is
+	// already over - apply it to the run that is live now.
+	if cur, ok := s.runningPipelines.Get(pipelineID); ok && cur != rp {
+		if st := cur.pipeline.GetStatus(); st == pipeline.StatusRunning || st == pipeline.StatusRecovering {
+			if !force && cur.recoveryStop != nil {
+				cur.recoveryStopOnce.Do(func() { close(cur.recoveryStop) })
+			}
+			return s.stopRunnablePipeline(ctx, cur, force)
+		}
+	}
+	return err
 }
 
 // StopAll will ask all the running pipelines to stop gracefully
